@@ -208,6 +208,8 @@ def fam_foreign_idle(rng, n):
         for j in range(rng.randint(1, 3)):
             x += 1
             fp.append({'op': 'call', 'id': x, 'x': x, 'delay': rng.choice([0.0, 1.0, tau - 1.0, tau + 1.0]) if j else 0.0})
+        if rng.random() < 0.5:      # an observer that does not force a flush: wait_from_anywhere(cancel=False)
+            fp.append({'op': 'wait', 'w': 1, 'cancel': False, 'delay': rng.choice([0.0, 1.0, tau - 1.0])})
         foreign.append({'name': 'F1', 'start': t, 'prog': fp})
         func = {'dur': rng.choice([0.0, 1.0]), 'fail': []}
         out.append({'timeout': tau, 'func': func, 'prog': prog, 'foreign': foreign, 'trace': False,
@@ -251,6 +253,13 @@ def run(ctx):
         go(c08_grid(ctx.tier), 'arrival_grid')
         go(fam_programs(rng, 600 if q else 20000, 5, 0, imm_only=True), 'imm_programs')
         go(fam_foreign_idle(rng, 300 if q else 6000), 'foreign_arrivals')
+        obs = fam_programs(rng, 400 if q else 8000, 4, 2, imm_only=True)
+        for sc in obs:              # observers that do not force a flush: wait(cancel=False) leaves the debounce timing alone
+            for it in sc['prog']:
+                if it['op'] == 'wait':
+                    it['cancel'] = False
+                    it.pop('submit_first', None)
+        go(obs, 'imm_programs_with_observers')
     elif ctx.prop == 'C03':
         go(fam_programs(rng, 2500 if q else 40000, 5 if q else 8, 2), 'programs')
         go(fam_foreign(rng, 500 if q else 12000), 'foreign_threads')
